@@ -267,7 +267,12 @@ func verifC10Collide(typ int) {
 	drop := verifMkPattern(false)
 	filters := []Filter{{DropTags: gostatsd.StringMatchList{drop.sm}}}
 	rec := &verifRecorder{}
-	th := NewTagHandler(rec, nil, filters)
+	// 0..1 static tags: a series may lose as many tags as it gains
+	var static gostatsd.Tags
+	if nondetBool() {
+		static = gostatsd.Tags{nondetString(1)}
+	}
+	th := NewTagHandler(rec, static, filters)
 	t1, t2 := nondetString(1), nondetString(1)
 	v1, v2 := int64(nondetInt32()), int64(nondetInt32())
 	ts1, ts2 := gostatsd.Nanotime(nondetInt64In(0, 1<<40)), gostatsd.Nanotime(nondetInt64In(0, 1<<40))
@@ -285,6 +290,20 @@ func verifC10Collide(typ int) {
 	th.DispatchMetricMap(context.Background(), mm)
 	verifAssert(len(rec.maps) == 1, "forwarded")
 	out := rec.maps[0]
+	// series that coincide after the stage (same source, same tag set) must have been combined into one
+	var ids []gostatsd.Tags
+	for _, c := range out.Counters["n"] {
+		ids = append(ids, c.Tags)
+	}
+	for _, c := range out.Timers["n"] {
+		ids = append(ids, c.Tags)
+	}
+	for _, c := range out.Sets["n"] {
+		ids = append(ids, c.Tags)
+	}
+	if len(ids) == 2 {
+		verifAssert(!verifSameSet(ids[0], ids[1]), "two series of one name leave the tag stage with the same source and tag set: coinciding series must be combined")
+	}
 	switch typ {
 	case 0:
 		var sum int64
